@@ -328,4 +328,171 @@ theorem appsTransmit_turn (now : Int) (hp : Bool) (n : Nat) : ∀ (k : Nat) (c c
             · exact .inl h0
             · exact .inr ⟨f, hf, by simpa [declinesOf] using he⟩
 
+/-! ## Token-visit steps with the turn bookkeeping -/
+
+/-- The states in which `do_use_token` leaves the station when it ends the token hold
+(`transition_pass_token` + `do_pass_token` in the same poll): waiting for the synchronisation pause in
+`PassToken`, GAP poll sent, token sent to itself (alone in the ring: a new visit starts at once), or
+token sent to NS. -/
+def Passed (s : Station) (now : Int) : Prop :=
+  s.st = .passToken true .first ∨ (∃ a, s.st = .awaitStatus a) ∨ s.st = .useToken ⟨now, none⟩ false ∨
+    s.st = .checkTokenPass .first
+
+theorem passNow_state (c c' : Ctx) (now : Int) (h : passNow c now = .ok c') : Passed c'.s now := by
+  unfold passNow at h
+  obtain ⟨c1, ht, h⟩ := bind_ok_inv h
+  obtain ⟨s', hs', hc'⟩ := tr_inv ht
+  have := toPassToken_inv hs'
+  subst this; subst hc'
+  obtain ⟨-, -, hpost⟩ := doPassToken_eff _ c' now true .first rfl h
+  rcases hpost with ⟨h1, -, -⟩ | ⟨-, h1, -⟩ | ⟨-, h1 | h1, -⟩
+  · exact .inl h1
+  · exact .inr (.inl h1)
+  · exact .inr (.inr (.inl h1))
+  · exact .inr (.inr (.inr h1))
+
+/-- Outcome of a token-visit step under the turn bookkeeping (`D` = decliners of the visit so far, `over`
+= the hold time is over): every application asked is one that has not declined in this visit, and
+* nothing happened (waiting for the synchronisation pause / the reply / the own transmission), or
+* the visit continues (`UseToken` with `first_cycle_done`, or `AwaitDataResponse`) and the bookkeeping
+  carries on with the new decliners, or
+* an inadmissible telegram arrived while awaiting a reply: back-off to `ActiveIdle`, or
+* the token hold was ended — and then the hold time is over, or there are no applications, or every
+  application has declined exactly once in this visit (one full round from `first_app`). -/
+def TurnPost (n : Nat) (D : List Nat) (c c' : Ctx) (now : Int) (over : Prop) : Prop :=
+  ∃ new, c'.calls = c.calls ++ new ∧ askFresh D new ∧
+   ((new = [] ∧ c'.s.st = c.s.st ∧ c'.s.nextApp = c.s.nextApp) ∨
+    (∃ d', (c'.s.st = .useToken d' true ∨ ∃ a, c'.s.st = .awaitData a d') ∧
+        VTurn n d'.firstApp c'.s.nextApp (D ++ declinesOf new)) ∨
+    (c'.s.st = .activeIdle none none 0) ∨
+    (Passed c'.s now ∧ (over ∨ n = 0 ∨ ∃ f, f < n ∧ D ++ declinesOf new = cyc n f n)))
+
+theorem TurnPost.lift {n : Nat} {D : List Nat} {c0 c c' : Ctx} {now : Int} {over over' : Prop}
+    (e1 : c0.calls = c.calls) (e2 : c0.s.st = c.s.st) (e3 : c0.s.nextApp = c.s.nextApp) (ho : over → over')
+    (h : TurnPost n D c0 c' now over) : TurnPost n D c c' now over' := by
+  obtain ⟨new, hc, hf, hcase⟩ := h
+  refine ⟨new, by rw [hc, e1], hf, ?_⟩
+  rcases hcase with ⟨h1, h2, h3⟩ | h | h | ⟨h1, h2 | h2⟩
+  · exact .inl ⟨h1, h2.trans e2, h3.trans e3⟩
+  · exact .inr (.inl h)
+  · exact .inr (.inr (.inl h))
+  · exact .inr (.inr (.inr ⟨h1, .inl (ho h2)⟩))
+  · exact .inr (.inr (.inr ⟨h1, .inr h2⟩))
+
+theorem useTokenGo_turn (n : Nat) (D : List Nat) (c c' : Ctx) (now : Int) (d : UseData) (hp : Bool) (over : Prop)
+    (hlen : c.apps.length = n) (hv : VTurn n d.firstApp c.s.nextApp D) (h : useTokenGo c now d hp = .ok c') :
+    TurnPost n D c c' now over := by
+  unfold useTokenGo at h
+  simp only [upd] at h
+  rcases hat : appsTransmit now hp c.apps.length { c with s := { c.s with st := .useToken d true } } with ⟨r, b⟩
+  rw [hat] at h
+  cases r with
+  | panic site => cases h
+  | ok c2 =>
+    obtain ⟨new, hc, hf, hbt, hbf⟩ := appsTransmit_turn now hp n c.apps.length { c with s := { c.s with st := .useToken d true } } c2 b d true D rfl hlen hv (by rw [hlen]; omega) hat
+    cases b with
+    | true =>
+      cases h
+      obtain ⟨d', hs', hv'⟩ := hbt rfl
+      exact ⟨new, hc, hf, .inr (.inl ⟨d', hs', hv'⟩)⟩
+    | false =>
+      simp only at h
+      obtain ⟨hq, -, -⟩ := passNow_eff c2 c' now new h
+      exact ⟨new, hq.calls.trans hc, hf, .inr (.inr (.inr ⟨passNow_state c2 c' now h, .inr (hbf rfl)⟩))⟩
+
+theorem gol_clock (s : Station) (now : Int) :
+    (getOrInsertLast s now).1.lastTokenTime = s.lastTokenTime ∧ (getOrInsertLast s now).1.endTokenHoldTime = s.endTokenHoldTime := by
+  unfold getOrInsertLast; split <;> simp
+
+theorem checkBA_clock (s : Station) (now : Int) (k : Nat) :
+    (checkBusActivity s now k).lastTokenTime = s.lastTokenTime ∧ (checkBusActivity s now k).endTokenHoldTime = s.endTokenHoldTime := by
+  unfold checkBusActivity markBusActivity; split <;> simp
+
+theorem hold_end_congr (s1 s : Station) (d : UseData) (h1 : s1.lastTokenTime = s.lastTokenTime) (h2 : s1.p = s.p)
+    (h3 : s1.gap = s.gap) (h4 : s1.endTokenHoldTime = s.endTokenHoldTime) :
+    (holdUpdate s1 d).endTokenHoldTime = (holdUpdate s d).endTokenHoldTime := by
+  unfold holdUpdate
+  rw [h1]
+  by_cases h : s.lastTokenTime ≠ d.tokenTime
+  · rw [if_pos h, if_pos h]; simp only [h1, h2, h3]
+  · rw [if_neg h, if_neg h]; exact h4
+
+theorem doUseToken_turn (n : Nat) (D : List Nat) (c c' : Ctx) (now : Int) (d : UseData) (fcd : Bool)
+    (hst : c.s.st = .useToken d fcd) (hlen : c.apps.length = n) (hv : VTurn n d.firstApp c.s.nextApp D)
+    (h : doUseToken c now = .ok c') :
+    TurnPost n D c c' now (¬ now < (holdUpdate c.s d).endTokenHoldTime) := by
+  unfold doUseToken at h
+  rw [hst] at h
+  simp only at h
+  have hnx : (waitSyncPause (holdUpdate c.s d) now).1.nextApp = c.s.nextApp := by rw [ws_nextApp, hold_nextApp]
+  have hstx : (waitSyncPause (holdUpdate c.s d) now).1.st = c.s.st := by rw [waitSync_fst, gol_st, hold_st]
+  rcases ite_inv h with ⟨_, h⟩ | ⟨_, h⟩
+  · cases h
+    exact ⟨[], by simp, trivial, .inl ⟨rfl, hstx, hnx⟩⟩
+  · rcases ite_inv h with ⟨_, h⟩ | ⟨hover, h⟩
+    · exact TurnPost.lift (c0 := { c with s := (waitSyncPause (holdUpdate c.s d) now).1 }) rfl hstx hnx id
+        (useTokenGo_turn n D _ c' now d false _ hlen (by rw [hnx]; exact hv) h)
+    · rcases ite_inv h with ⟨_, h⟩ | ⟨_, h⟩
+      · exact TurnPost.lift (c0 := { c with s := (waitSyncPause (holdUpdate c.s d) now).1 }) rfl hstx hnx id
+          (useTokenGo_turn n D _ c' now d true _ hlen (by rw [hnx]; exact hv) h)
+      · obtain ⟨hq, -, -⟩ := passNow_eff _ c' now [] h
+        refine ⟨[], by simpa using hq.calls, trivial, .inr (.inr (.inr ⟨passNow_state _ c' now h, .inl ?_⟩))⟩
+        simpa [waitSync_fst, (gol_clock _ now).2] using hover
+
+theorem doAwaitDataResponse_turn (n : Nat) (D : List Nat) (c c' : Ctx) (now : Int) (a : Nat) (d : UseData)
+    (hst : c.s.st = .awaitData a d) (hlen : c.apps.length = n) (hv : VTurn n d.firstApp c.s.nextApp D)
+    (h : doAwaitDataResponse c now = .ok c') :
+    TurnPost n D c c' now (¬ now < (holdUpdate c.s d).endTokenHoldTime) := by
+  unfold doAwaitDataResponse at h
+  rcases hrx : receiveTelegram c.rx with ⟨rx', calls, ret⟩ | _ | _ <;> rw [hrx, hst] at h <;> simp only at h
+  · rcases ite_inv h with ⟨_, h⟩ | ⟨_, h⟩
+    · cases h
+    cases calls with
+    | nil =>
+      simp only at h
+      rcases ite_inv h with ⟨_, h⟩ | ⟨_, h⟩
+      · obtain ⟨c2, ht, h⟩ := bind_ok_inv h
+        obtain ⟨c3, ht3, ht⟩ := bind_ok_inv ht
+        obtain ⟨s', hs', hc'⟩ := tr_inv ht3
+        have := toUseToken_inv hs'
+        subst this; subst hc'
+        simp only [upd, Res.ok.injEq] at ht
+        subst ht
+        have hnx : (checkSlotExpired c.s now).1.nextApp = c.s.nextApp := cs_nextApp c.s now
+        obtain ⟨new, hc, hf, hcase⟩ := doUseToken_turn n D { c with rx := rx', s := { (checkSlotExpired c.s now).1 with st := .useToken d true }, calls := c.calls ++ [.timeout c.s.nextApp a] } c' now d true rfl hlen (by simpa [hnx] using hv) h
+        have hover : (¬ now < (holdUpdate { (checkSlotExpired c.s now).1 with st := .useToken d true } d).endTokenHoldTime) →
+            ¬ now < (holdUpdate c.s d).endTokenHoldTime := by
+          intro ho
+          rw [← hold_end_congr { (checkSlotExpired c.s now).1 with st := .useToken d true } c.s d
+            (by simp [checkSlot_fst, (gol_clock c.s now).1]) (by simp [checkSlot_fst, gol_p]) (by simp [checkSlot_fst, gol_gap])
+            (by simp [checkSlot_fst, (gol_clock c.s now).2])]
+          exact ho
+        refine ⟨.timeout c.s.nextApp a :: new, by simpa using hc, hf, ?_⟩
+        rcases hcase with ⟨h1, h2, h3⟩ | h' | h1 | ⟨h1, h2 | h2⟩
+        · subst h1
+          exact .inr (.inl ⟨d, .inl (by simpa using h2), by simpa [declinesOf, hnx] using (show VTurn n d.firstApp c'.s.nextApp D by rw [h3]; simpa [hnx] using hv)⟩)
+        · exact .inr (.inl (by simpa [declinesOf] using h'))
+        · exact .inr (.inr (.inl h1))
+        · exact .inr (.inr (.inr ⟨h1, .inl (hover h2)⟩))
+        · exact .inr (.inr (.inr ⟨h1, .inr (by simpa [declinesOf] using h2)⟩))
+      · cases h
+        exact ⟨[], by simp, trivial, .inl ⟨rfl, by simp [checkSlot_fst, gol_st], cs_nextApp c.s now⟩⟩
+    | cons x rest =>
+      obtain ⟨t, fl⟩ := x
+      simp only at h
+      rcases ite_inv h with ⟨hv', h⟩ | ⟨_, h⟩
+      · obtain ⟨c3, ht3, ht⟩ := bind_ok_inv h
+        obtain ⟨s', hs', hc'⟩ := tr_inv ht3
+        have := toUseToken_inv hs'
+        subst this; subst hc'
+        simp only [upd, Res.ok.injEq] at ht
+        subst ht
+        exact ⟨[.reply c.s.nextApp a t], rfl, trivial, .inr (.inl ⟨d, .inl rfl, by simpa [declinesOf, markRx_nextApp] using hv⟩)⟩
+      · obtain ⟨s', hs', hc'⟩ := tr_inv h
+        have := toActiveIdle_inv hs'
+        subst this; subst hc'
+        exact ⟨[], by simp, trivial, .inr (.inr (.inl rfl))⟩
+  · rcases ite_inv h with ⟨_, h⟩ | ⟨_, h⟩ <;> cases h
+  · rcases ite_inv h with ⟨_, h⟩ | ⟨_, h⟩ <;> cases h
+
 end PV
